@@ -105,7 +105,7 @@ def scan(pan, path, ts, top, hits, counts, cls, kind, L0=0.0):
         ang, dl, Lr, t_lo, t_hi, c = r
         calls += c
         Lest = max(L, Lr)
-        key = "%s|%s|%s" % (pan.name if pan.real is None else pan.name + "/real", kind, cls)
+        key = "%s|%s|%s" % (pan.group, kind, cls)
         counts[key] = counts.get(key, 0) + 1
         counts["max-final-delta"] = max(counts.get("max-final-delta", 0.0), dl)
         counts["max-L"] = max(counts.get("max-L", 0.0), Lest)
@@ -145,7 +145,9 @@ def path_stream(pan, rng, n_local, n_circles):
     while len(circles) < n_circles:
         q = c05.unit([rng.gauss(0, 1) for _ in range(3)])
         circles.append(("circle-random", q, [rng.gauss(0, 1) for _ in range(3)]))
-    rng.shuffle(circles)
+    rest = circles[1:]
+    rng.shuffle(rest)
+    circles = circles[:1] + rest  # the horizontal plane is always scanned
     for cls, q, d in circles[:n_circles]:
         yield (cls, "-", Path(q, d), full, 3)
     # local crossings
@@ -253,6 +255,8 @@ class C12(Spec):
             tasks.append((name, name, None, "%s/%d/%s/%d" % (ctx.tier, ctx.seed, name, ctx.rng.randrange(1 << 30)), n_local, n_circles))
         for lid, name, real in c05.real_catalogue():
             tasks.append((lid, name, real, "%s/%d/%s/%d" % (ctx.tier, ctx.seed, lid, ctx.rng.randrange(1 << 30)), n_local // 2, max(4, n_circles // 2)))
+        for lid, name, real in c05.boundary_for_run(ctx, 12 if ctx.quick else None):
+            tasks.append((lid, name, real, "%s/%d/%s/%d" % (ctx.tier, ctx.seed, lid, ctx.rng.randrange(1 << 30)), max(40, n_local // 3), max(3, n_circles // 3)))
         mx_d, mx_L = 0.0, 0.0
         for lid, calls, counts, hits, samples in c05.run_pool(tasks, _task):
             mx_d = max(mx_d, counts.pop("max-final-delta", 0.0))
